@@ -225,6 +225,30 @@ func otherDigest(raw string, n int) string {
 	if json.Unmarshal([]byte(raw), &d) != nil {
 		return quote("sha256:0000")
 	}
+	hexPart := d
+	if i := strings.IndexByte(d, ':'); i >= 0 {
+		hexPart = d[i+1:]
+	}
+	switch n % 12 { // malformed digests: a plugin answer is untrusted text, not a parsed digest
+	case 3:
+		return quote(hexPart) // no "algorithm:" prefix at all
+	case 4:
+		return quote(":" + hexPart)
+	case 5:
+		return quote("sha256:")
+	case 6:
+		return quote("md5:" + hexPart)
+	case 7:
+		return quote("sha256-" + hexPart)
+	case 8:
+		return quote("sha256:" + strings.Repeat("z", len(hexPart)))
+	case 9:
+		return quote(d + ":" + hexPart)
+	case 10:
+		return quote(" " + d)
+	case 11:
+		return quote("x")
+	}
 	switch n % 3 {
 	case 1:
 		return quote(strings.ToUpper(d))
